@@ -117,17 +117,29 @@ def run(ctx: Context, col) -> None:
     except Unsupported as e:
         raise AnalysisError(f"BatchProcessor.prepare_batches: {e}") from e
     pline = cls.methods["prepare_batches"].lineno
+    from ..terms import lift_ite
+    dims = (nd, nb, bs, A["state_dim"])
     resh = [t for t in subterms(pb) if t[0] == "app" and t[1] == "reshape"]
-    okr = bool(resh) and all(tuple(t[2][1:]) == (nd, nb, bs, A["state_dim"]) for t in resh) and pb[0] in ("app",) and pb[1] == "reshape"
+
+    def _target(t):
+        tgt = tuple(t[2][1:])
+        return tuple(tgt[0][1]) if len(tgt) == 1 and tgt[0][0] == "tuple" else tgt
+
+    okr = bool(resh) and all(_target(t) == dims for t in resh)
     col.add("R18.1", "BatchProcessor.prepare_batches", file, pline, okr,
             "reshape target == (n_devices, n_batches, batch_size, state_dim)" if okr else
-            f"reshape target is {[show_norm(x) for x in (resh[0][2][1:] if resh else [])]}", text="reshape target")
-    # R18.2 pad placement
+            f"reshape target is {[show_norm(x) for x in (_target(resh[0]) if resh else [])]}", text="reshape target")
+    # R18.2 pad placement (conditionals lifted to the top: early returns and a padded local are the same term)
     cond_pad = ("app", "cmpLt", (K(0), npad))
-    body = pb[2][0] if okr else pb
     zeros = ("app", "zeros", (("tuple", (npad, A["state_dim"])),))
     want_padded = ("app", "vstack", (STATES, zeros))
-    okp = body == ("ite", cond_pad, want_padded, STATES)
+
+    def _unreshape(t):
+        return t[2][0] if t[0] == "app" and t[1] == "reshape" and _target(t) == dims else None
+
+    got = lift_ite(pb, cond_pad)
+    okp = got[0] == "ite" and got[1] == cond_pad and _unreshape(got[2]) == want_padded and _unreshape(got[3]) == STATES
+    body = got
     col.add("R18.2", "BatchProcessor.prepare_batches", file, pline, okp,
             "n_pad > 0: states followed by n_pad x state_dim zero rows; otherwise unchanged" if okp else
             f"padded array is {show_norm(body)[:200]}", text="pad after the states")
@@ -161,8 +173,9 @@ def run(ctx: Context, col) -> None:
     ok4b = False
     if nb[0] == "ite":
         c, one, other = nb[1], nb[2], nb[3]
-        if c[0] == "app" and c[1] == "cmpLtE" and c[2][1] == bs and is_ceil_div(c[2][0], N, nd) and one == K(1):
-            ok4b = is_ceil_div(other, c[2][0], bs)
+        # canonical polarity (terms.T_ite): ite(bs < spd, ceil(spd / bs), 1)
+        if c[0] == "app" and c[1] == "cmpLt" and c[2][0] == bs and is_ceil_div(c[2][1], N, nd) and other == K(1):
+            ok4b = is_ceil_div(one, c[2][1], bs)
     elif nb[0] == "app":
         ok4b = any(is_ceil_div(nb, s_, bs) for s_ in [spd])
     col.add("R18.4", "BatchProcessor.__init__", file, line, ok4a and ok4b,
